@@ -21,8 +21,8 @@ pub enum K {
     False,
     Lit(BigInt),
     Var(Id),
-    /// An unresolved hole: outside the explicit checker's domain.
-    Hole,
+    /// An unresolved hole (with an identity): outside the explicit checker's domain.
+    Hole(u64),
     Lam(Id, bool, Rc<K>, Rc<K>),
     Pi(Id, bool, Rc<K>, Rc<K>),
     App(Rc<K>, Rc<K>),
@@ -60,7 +60,11 @@ pub fn from_gram(t: &Term, stack: &mut Vec<Id>, names: &mut Names) -> Result<K, 
         Variant::Unifier(cell, shift) => {
             let content = cell.borrow().clone();
             match content {
-                None => K::Hole,
+                None => {
+                    // The same cell is the same unknown (the scope it is read in is not part of
+                    // its identity: scope safety of solutions is checked separately).
+                    K::Hole(Rc::as_ptr(cell) as usize as u64)
+                }
                 Some(inner) => {
                     if *shift > stack.len() {
                         return Err(format!("hole shift {shift} exceeds the scope depth {}", stack.len()));
@@ -143,7 +147,7 @@ pub fn from_s(s: &S, scope: &mut Vec<(String, Id)>, names: &mut Names) -> Result
         S::True => K::True,
         S::False => K::False,
         S::Lit(n) => K::Lit(n.clone()),
-        S::Var(n) if n == PLACEHOLDER => K::Hole,
+        S::Var(n) if n == PLACEHOLDER => K::Hole(u64::from(names.fresh("_")) | (1 << 62)),
         S::Var(n) => match scope.iter().rev().find(|(m, _)| m == n) {
             Some((_, id)) => K::Var(*id),
             None => return Err(format!("unbound name {n}")),
@@ -152,7 +156,7 @@ pub fn from_s(s: &S, scope: &mut Vec<(String, Id)>, names: &mut Names) -> Result
         S::Lam { name, implicit, ann, body } => {
             let a = match ann {
                 Some(a) => rc(a, scope, names)?,
-                None => Rc::new(K::Hole),
+                None => Rc::new(K::Hole(u64::from(names.fresh("_")) | (1 << 62))),
             };
             let id = names.fresh(name);
             scope.push((if name == PLACEHOLDER { String::new() } else { name.clone() }, id));
@@ -184,7 +188,7 @@ pub fn from_s(s: &S, scope: &mut Vec<(String, Id)>, names: &mut Names) -> Result
             for (d, id) in defs.iter().zip(&ids) {
                 let a = match &d.ann {
                     Some(a) => from_s(a, scope, names),
-                    None => Ok(K::Hole),
+                    None => Ok(K::Hole(u64::from(names.fresh("_")) | (1 << 62))),
                 };
                 match (a, from_s(&d.def, scope, names)) {
                     (Ok(a), Ok(x)) => out.push((*id, a, x)),
@@ -203,7 +207,7 @@ pub fn from_s(s: &S, scope: &mut Vec<(String, Id)>, names: &mut Names) -> Result
 
 pub fn has_hole(k: &K) -> bool {
     match k {
-        K::Hole => true,
+        K::Hole(_) => true,
         K::Lam(_, _, a, b) | K::Pi(_, _, a, b) | K::App(a, b) | K::Bin(_, a, b) => has_hole(a) || has_hole(b),
         K::Let(defs, body) => defs.iter().any(|(_, a, d)| has_hole(a) || has_hole(d)) || has_hole(body),
         K::Neg(a) => has_hole(a),
@@ -234,7 +238,7 @@ pub fn to_s(k: &K, names: &Names, scope: &mut Vec<(Id, String)>) -> S {
                 S::Lit(n.clone())
             }
         }
-        K::Hole => S::Var(PLACEHOLDER.to_owned()),
+        K::Hole(_) => S::Var(PLACEHOLDER.to_owned()),
         K::Var(id) => match scope.iter().rev().find(|(i, _)| i == id) {
             Some((_, n)) => S::Var(n.clone()),
             None => S::Var(pick(*id, scope)),
@@ -336,7 +340,7 @@ pub enum V {
     Pi(bool, Rc<V>, Clo),
     /// Stuck terms (heads may be variables, holes, or ill-typed values).
     Var(Id),
-    Hole,
+    Hole(u64),
     App(Rc<V>, Rc<V>),
     Neg(Rc<V>),
     Bin(Op, Rc<V>, Rc<V>),
@@ -408,7 +412,7 @@ impl Nbe {
             K::True => Rc::new(V::True),
             K::False => Rc::new(V::False),
             K::Lit(n) => Rc::new(V::Lit(n.clone())),
-            K::Hole => Rc::new(V::Hole),
+            K::Hole(h) => Rc::new(V::Hole(*h)),
             K::Var(id) => self.lookup(env, *id)?,
             K::Lam(id, im, _, body) => Rc::new(V::Lam(*im, Clo { env: env.clone(), id: *id, body: body.clone() })),
             K::Pi(id, im, dom, cod) => {
@@ -481,7 +485,8 @@ impl Nbe {
             (V::Type, V::Type) | (V::Int, V::Int) | (V::Bool, V::Bool) | (V::True, V::True) | (V::False, V::False) => true,
             (V::Lit(x), V::Lit(y)) => x == y,
             (V::Var(x), V::Var(y)) => x == y,
-            (V::Hole, _) | (_, V::Hole) => false,
+            (V::Hole(x), V::Hole(y)) => x == y,
+            (V::Hole(_), _) | (_, V::Hole(_)) => false,
             (V::Lam(i1, c1), V::Lam(i2, c2)) => {
                 if i1 != i2 {
                     return Ok(false);
@@ -545,11 +550,11 @@ impl Nbe {
             V::False => K::False,
             V::Lit(n) => K::Lit(n.clone()),
             V::Var(id) => K::Var(*id),
-            V::Hole => K::Hole,
+            V::Hole(h) => K::Hole(*h),
             V::Lam(im, clo) => {
                 let id = names.fresh(&names.get(clo.id));
                 let body = self.apply_clo(clo, Rc::new(V::Var(id)))?;
-                K::Lam(id, *im, Rc::new(K::Hole), Rc::new(self.quote(&body, names)?))
+                K::Lam(id, *im, Rc::new(K::Hole(0)), Rc::new(self.quote(&body, names)?))
             }
             V::Pi(im, dom, clo) => {
                 let d = self.quote(dom, names)?;
@@ -683,7 +688,7 @@ impl Tc {
             K::Type | K::Int | K::Bool => Rc::new(V::Type),
             K::True | K::False => Rc::new(V::Bool),
             K::Lit(_) => int(),
-            K::Hole => return Err(TcErr::Hole),
+            K::Hole(_) => return Err(TcErr::Hole),
             K::Var(id) => match ctx_lookup(ctx, *id) {
                 Some(t) => t,
                 None => return Err(TcErr::Ill("variable", format!("variable {} is not in the typing context", self.names.get(*id)))),
@@ -887,7 +892,7 @@ impl Cbv {
             K::True => CV::Bool(true),
             K::False => CV::Bool(false),
             K::Lit(n) => CV::Int(n.clone()),
-            K::Hole => return Err(CbvStop::Stuck("unfilled hole".into())),
+            K::Hole(_) => return Err(CbvStop::Stuck("unfilled hole".into())),
             K::Var(id) => self.lookup(env, *id)?,
             K::Lam(id, im, _, body) => CV::Clo(env.clone(), *id, body.clone(), *im),
             K::App(f, a) => {
